@@ -62,7 +62,12 @@ runs_for() { # $1 target $2 tier $3 kind
     *)          q=20000;  t=500000;;
   esac
   local n; if [ "$2" = quick ]; then n=$q; else n=$t; fi
-  if [ "$3" = empty ]; then n=$((n / 2)); fi
+  if [ "$3" = empty ]; then
+    n=$((n / 2))
+    # from nothing libFuzzer does get past the MPQ header search, and then runs at < 100 exec/s on inputs of
+    # 10-20 KB (measured: 156 k runs in 31 min under load); cap that campaign
+    if [ "$1" = mpq ] && [ "$2" = thorough ]; then n=60000; fi
+  fi
   n=$((n * SCALE / 100)); [ "$n" -lt 100 ] && n=100
   echo "$n"
 }
